@@ -212,6 +212,8 @@ func run12(c *fw.Ctx) {
 	builtinPrivacy(c)
 	fileModules(c)
 	manyModules(c)
+	twoDirectories(c)
+	paramModules(c)
 }
 
 func one(c *fw.Ctx, body []gen.Stmt, mods map[string][]gen.Stmt, modSrc map[string]string, cyclic bool, key string) {
@@ -344,6 +346,140 @@ func fileModules(c *fw.Ctx) {
 					got := uv.Outcome(v, rerr) + " log=" + fmt.Sprint(log)
 					if want := "OK [2, 3] log=[state body]"; got != want {
 						c.Violation(key, fmt.Sprintf("the module file is reached by two spellings of its path: %s, want %s", got, want), map[string]any{"main": src, "workdir": w.dir})
+					}
+				}
+			}
+		}
+	}
+}
+
+// twoDirectories: the same relative spelling used from modules in two directories names two different files; each
+// file is one module (body runs once, one object) whatever the order in which the spellings are met.
+func twoDirectories(c *fw.Ctx) {
+	c.Family("file-importer-two-directories", "a/mod.ugo and b/mod.ugo both import \"./util.ugo\" (their own), main imports every ordered triple of {a/mod, b/mod, a/util, b/util} x 2 working directories x optimizer on/off; model: one module per file")
+	cwd, err := filepath.Abs(".")
+	if err != nil {
+		c.Infra("getwd: %v", err)
+		return
+	}
+	root := filepath.Join(cwd, "vroot12", "two")
+	files := map[string]string{}
+	for _, d := range []string{"a", "b"} {
+		files[filepath.Join(root, d, "mod.ugo")] = "return import(\"./util.ugo\")\n"
+		files[filepath.Join(root, d, "util.ugo")] = "global L\nL(\"body " + d + "\")\nn := 0\nreturn {id: \"" + d + "\", inc: func() { n++; return n }}\n"
+	}
+	reader := func(name string) ([]byte, error) {
+		abs, err := filepath.Abs(name)
+		if err != nil {
+			return nil, err
+		}
+		if src, ok := files[filepath.Clean(abs)]; ok {
+			return []byte(src), nil
+		}
+		return nil, fmt.Errorf("no such file %s", name)
+	}
+	rel, _ := filepath.Rel(cwd, root)
+	targets := []struct{ path, dir string }{{"a/mod.ugo", "a"}, {"b/mod.ugo", "b"}, {"a/util.ugo", "a"}, {"b/util.ugo", "b"}}
+	for _, wd := range []string{rel, root} {
+		for i1 := range targets {
+			for i2 := range targets {
+				for i3 := range targets {
+					if i1 == i2 || i2 == i3 || i1 == i3 {
+						continue
+					}
+					for _, noopt := range []bool{false, true} {
+						if !c.Next() {
+							continue
+						}
+						pick := []int{i1, i2, i3}
+						key := fmt.Sprintf("two-directories wd-absolute=%v imports=%s,%s,%s noopt=%v", wd == root, targets[i1].path, targets[i2].path, targets[i3].path, noopt)
+						if c.Skip(key) {
+							continue
+						}
+						c.Nontrivial()
+						c.AddStates(1)
+						src := "global L\nr := []\n"
+						counts := map[string]int{}
+						var wantR, wantLog []string
+						for k, ti := range pick {
+							src += fmt.Sprintf("m%d := import(\"%s\")\nr = append(r, m%d.id, m%d.inc())\n", k, targets[ti].path, k, k)
+							d := targets[ti].dir
+							if counts[d] == 0 {
+								wantLog = append(wantLog, "body "+d)
+							}
+							counts[d]++
+							wantR = append(wantR, fmt.Sprintf("%q", d), fmt.Sprint(counts[d]))
+						}
+						src += "return r\n"
+						mm := ugo.NewModuleMap().SetExtImporter(&importers.FileImporter{WorkDir: wd, FileReader: reader})
+						var log []string
+						bc, cerr := ugo.Compile([]byte(src), ugo.CompilerOptions{ModuleMap: mm, NoOptimize: noopt})
+						if cerr != nil {
+							c.Violation(key, "compiling fails: "+cerr.Error(), map[string]any{"main": src, "workdir": wd})
+							continue
+						}
+						g := ugo.Map{"L": &ugo.Function{Name: "L", Value: func(a ...ugo.Object) (ugo.Object, error) {
+							log = append(log, a[0].String())
+							return ugo.Undefined, nil
+						}}}
+						v, rerr := ugo.NewVM(bc).Run(g)
+						c.AddTraces(1)
+						c.AddTransitions(1)
+						got := uv.Outcome(v, rerr) + " log=" + fmt.Sprint(log)
+						// the module bodies run when first imported at run time, which is the order of the main script
+						want := "OK [" + strings.Join(wantR, ", ") + "] log=" + fmt.Sprint(wantLog)
+						if got != want {
+							c.Violation(key, fmt.Sprintf("one module per file: got %s, want %s", got, want), map[string]any{"main": src, "workdir": wd})
+						}
+					}
+				}
+			}
+		}
+	}
+}
+
+// paramModules: a source module may declare parameters (they are undefined: nothing can be passed); every import
+// expression of it - compiled first or later, executed first or later - loads or re-uses the one module.
+func paramModules(c *fw.Ctx) {
+	c.Family("param-modules", "module declaring param a / (a, b) / (a, b, c) / (a, ...b) x 7 main programs whose import expressions are compiled in one order and executed in another x optimizer on/off x encode/decode")
+	decls := []struct{ decl, probe, want string }{
+		{"param a", "a", "undefined"},
+		{"param (a, b)", "[a, b]", "[undefined, undefined]"},
+		{"param (a, b, c)", "[a, b, c]", "[undefined, undefined, undefined]"},
+		{"param (a, ...b)", "[a, b]", "[undefined, []]"},
+	}
+	mains := []struct{ name, src, want string }{
+		{"function literal above the top-level import", "f := func() { return import(\"pm\") }\nm := import(\"pm\")\nreturn [m.inc(), f().inc(), m.p]", "[1, 2, P]"},
+		{"function literal above, called first", "f := func() { return import(\"pm\") }\nx := f()\nm := import(\"pm\")\nreturn [x.inc(), m.inc(), m.p]", "[1, 2, P]"},
+		{"untaken conditional import first", "z := 0\nvar m1\nif z { m1 = import(\"pm\") }\nm2 := import(\"pm\")\nreturn [m2.inc(), m2.inc(), m2.p]", "[1, 2, P]"},
+		{"first import inside another module's function, executed later", "o := import(\"other\")\nm := import(\"pm\")\nreturn [m.inc(), o.get().inc(), m.p]", "[1, 2, P]"},
+		{"first import inside another module's function, executed first", "o := import(\"other\")\ng := o.get()\nm := import(\"pm\")\nreturn [g.inc(), m.inc(), g.p]", "[1, 2, P]"},
+		{"import in a loop body", "r := []\nfor i := 0; i < 3; i++ { m := import(\"pm\"); r = append(r, m.inc()) }\nreturn [r, import(\"pm\").p]", "[[1, 2, 3], P]"},
+		{"two plain imports", "m1 := import(\"pm\")\nm2 := import(\"pm\")\nreturn [m1.inc(), m2.inc(), m2.p]", "[1, 2, P]"},
+	}
+	for _, d := range decls {
+		for _, mp := range mains {
+			for _, noopt := range []bool{false, true} {
+				for _, rt := range []int{0, 1} {
+					if !c.Next() {
+						continue
+					}
+					key := fmt.Sprintf("param-modules decl=%q main=%q noopt=%v roundtrips=%d", d.decl, mp.name, noopt, rt)
+					if c.Skip(key) {
+						continue
+					}
+					c.Nontrivial()
+					c.AddStates(1)
+					mm := ugo.NewModuleMap()
+					mm.AddSourceModule("pm", []byte(d.decl+"\nglobal L\nL(\"pm body\")\nn := 0\nreturn {inc: func() { n++; return n }, p: "+d.probe+"}\n"))
+					mm.AddSourceModule("other", []byte("return {get: func() { return import(\"pm\") }}\n"))
+					src := "global L\n" + mp.src + "\n"
+					o := run.Source(src, run.Options{ModuleMap: mm, NoOptimize: noopt, EncodeDecode: rt})
+					c.AddTraces(1)
+					c.AddTransitions(1)
+					want := "OK " + strings.Replace(mp.want, "P", d.want, 1) + " log=[\"pm body\"]"
+					if got := o.String(); got != want {
+						c.Violation(key, fmt.Sprintf("module with parameters imported at several places: got %s, want %s", got, want), map[string]any{"main": src, "module": d.decl})
 					}
 				}
 			}
